@@ -362,7 +362,7 @@ Proof.
     + eauto.
   - (* GEnvReq *)
     destruct (nth_error (svcs g) s) as [sv|] eqn:Hs; [|discriminate].
-    destruct (kind_eqb (kd sv) k) eqn:Hk; [|discriminate]. apply kind_eqb_eq in Hk. subst k.
+    destruct (kind_eqb (kd sv) k && rr_pick_ok g s) eqn:Hk; [|discriminate]. apply andb_true_iff in Hk as [Hk _]. apply kind_eqb_eq in Hk. subst k.
     destruct (svc_act_GA g m s _ g' es G Hstep) as (m' & R & G' & _).
     + intros p r0 sz0 sv0 E Hs0. inversion E; subst. rewrite Hs in Hs0. inversion Hs0; subst sv0.
       split; [exact Hok|exact I].
@@ -423,8 +423,7 @@ Proof.
     destruct (svc_act g s (SRequest (PSub h i (sp_used sp)) (sp_req sp) (sp_sz sp))) as [[g1 es1]|] eqn:Hact; [|discriminate].
     inversion Hstep; subst g' es; clear Hstep.
     destruct (svc_act_GA g m s _ g1 es1 G Hact) as (m' & R & G1 & Hhs & _).
-    + intros p r sz sv E Hs. inversion E; subst p r sz. unfold may_take in Htake. rewrite Hs in Htake.
-      apply andb_true_iff in Htake as [_ Hk]. apply kind_eqb_eq in Hk. rewrite Hk.
+    + intros p r sz sv E Hs. inversion E; subst p r sz. pose proof (may_take_kind _ _ _ _ Htake Hs) as Hk. rewrite Hk.
       split; [eapply ga_subs_ok; eauto|]. cbn. exists hd, sp. auto.
     + exists m'. split; [assumption|]. rewrite Hhs.
       assert (Hh1 : nth_error (hs g1) h = Some hd) by (rewrite Hhs; assumption).
